@@ -310,6 +310,149 @@ def run_one(sc, root):
     return out, judge(sc, out), compare_model(sc, out, model_views(sc))
 
 
+UNWRITTEN_SRC = '''from twosigma.memento import memento_function
+from twosigma.memento.partition import InMemoryPartition
+from twosigma.memento.storage_filesystem import OnDiskPartition
+
+
+@memento_function(cluster="c17")
+def parent_b():
+    base = InMemoryPartition({"a": 1, "b": 2})            # built in memory, never written
+    result = %s
+    result._merge_parent = base
+    return result
+
+
+@memento_function(cluster="c17")
+def child_b():
+    child = InMemoryPartition({"c": 300, "d": 400})
+    child._merge_parent = parent_b()
+    return child
+
+
+@memento_function(cluster="c17")
+def grandchild_b():
+    g = InMemoryPartition({"e": 5})
+    g._merge_parent = child_b()
+    return g
+'''
+
+
+STAGED_SRC = '''from twosigma.memento import memento_function
+from twosigma.memento.partition import InMemoryPartition
+from twosigma.memento.storage_filesystem import OnDiskPartition
+import gc
+
+
+@memento_function(cluster="c17")
+def parent_s():
+    return InMemoryPartition({"a": 1, "b": [2, 3]})
+
+
+@memento_function(cluster="c17")
+def holder_s():
+    p = parent_s()                      # stored (or served): p knows where its entries live
+    d = OnDiskPartition()
+    d["nested"] = p                     # ... and is staged as a value of an on-disk partition
+    d["x"] = 5
+    %s
+    child = InMemoryPartition({"c": 4, "a": 10})
+    child._merge_parent = p
+    return child
+
+
+@memento_function(cluster="c17")
+def both_s():
+    p = parent_s()
+    d = OnDiskPartition()
+    d["nested"] = p
+    d["own"] = [7]
+    d._merge_parent = p                 # the on-disk partition itself is merged on the partition it also holds as a value
+    return d
+'''
+
+
+def staged_parent_scenario(root, backend, keep):
+    """F29: a partition that is (also) staged as a value of an OnDiskPartition still merges as a parent; everything reads back"""
+    import twosigma.memento as m
+    from twosigma.memento import Environment, ConfigurationRepository, FunctionCluster
+    from twosigma.memento.storage_filesystem import FilesystemStorageBackend
+    mk = lambda: FilesystemStorageBackend(path=os.path.join(root, "store_s"), memory_cache_mb=(10 if backend == "fscache" else None))
+    prev_env = m.Environment.get()
+    env = lambda st: Environment(name="c17", base_dir=root, repos=[ConfigurationRepository(name="r", clusters={"c17": FunctionCluster(name="c17", storage=st)})])
+    m.Environment.set(env(mk()))
+    _counter[0] += 1
+    modname = "c17g_%d_%d" % (os.getpid(), _counter[0])
+    src = STAGED_SRC % ("pass" if keep else "del d\n    gc.collect()")
+    fname = "<%s>" % modname
+    linecache.cache[fname] = (len(src), None, src.splitlines(True), fname)
+    mod = types.ModuleType(modname)
+    mod.__package__ = ""
+    sys.modules[modname] = mod
+    fails = []
+    try:
+        exec(compile(src, fname, "exec"), mod.__dict__)
+        want = {"holder_s": {"a": 10, "b": [2, 3], "c": 4}, "both_s": {"a": 1, "b": [2, 3], "nested": {"a": 1, "b": [2, 3]}, "own": [7]}}
+        for fn in ("holder_s", "both_s"):
+            for i, which in enumerate(("first call", "second call", "another backend object over the same store")):
+                if i == 2:
+                    m.Environment.set(env(mk()))
+                v = call_view(getattr(mod, fn))
+                if "error" in v or v["vals"] != want[fn] or v["keys"] != sorted(want[fn]):
+                    fails.append(dict(clause="overlay-of-parents", level=fn, which=which, got=v, expected=want[fn]))
+                    break
+            if fails:
+                break
+    finally:
+        m.Environment.set(prev_env)
+        sys.modules.pop(modname, None)
+    return fails
+
+
+def unwritten_parent_scenario(root, backend, staging):
+    """a partition merged on a parent that only exists in memory cannot be written (the library refuses: the runner logs the
+    error and hands the object back); used as a merge parent itself, it must still contribute all of its entries to whatever
+    is served for its children, on the first call and on every later one. Returns failures."""
+    import logging
+    import twosigma.memento as m
+    from twosigma.memento import Environment, ConfigurationRepository, FunctionCluster
+    from twosigma.memento.storage_filesystem import FilesystemStorageBackend
+    st = FilesystemStorageBackend(path=os.path.join(root, "store_u"), memory_cache_mb=(10 if backend == "fscache" else None))
+    prev_env = m.Environment.get()
+    m.Environment.set(Environment(name="c17", base_dir=root, repos=[
+        ConfigurationRepository(name="r", clusters={"c17": FunctionCluster(name="c17", storage=st)})]))
+    _counter[0] += 1
+    modname = "c17u_%d_%d" % (os.getpid(), _counter[0])
+    body = ('InMemoryPartition({"b": 20, "c": 30})' if staging == "mem" else 'OnDiskPartition()\n    result["b"] = 20\n    result["c"] = 30')
+    src = UNWRITTEN_SRC % body
+    fname = "<%s>" % modname
+    linecache.cache[fname] = (len(src), None, src.splitlines(True), fname)
+    mod = types.ModuleType(modname)
+    mod.__package__ = ""
+    sys.modules[modname] = mod
+    fails = []
+    lg = logging.getLogger("memento")
+    level = lg.level
+    lg.setLevel(logging.CRITICAL + 1)
+    try:
+        exec(compile(src, fname, "exec"), mod.__dict__)
+        want = {"parent_b": {"a": 1, "b": 20, "c": 30}, "child_b": {"a": 1, "b": 20, "c": 300, "d": 400},
+                "grandchild_b": {"a": 1, "b": 20, "c": 300, "d": 400, "e": 5}}
+        for fn in ("child_b", "grandchild_b", "parent_b"):
+            for i in (1, 2, 3):
+                v = call_view(getattr(mod, fn))
+                if "error" in v or v["vals"] != want[fn] or v["keys"] != sorted(want[fn]):
+                    fails.append(dict(clause="overlay-of-parents", level=fn, which="call %d" % i, got=v, expected=want[fn], staging=staging))
+                    break
+            if fails:
+                break
+    finally:
+        lg.setLevel(level)
+        m.Environment.set(prev_env)
+        sys.modules.pop(modname, None)
+    return fails
+
+
 def corpus():
     lv = lambda own, staging="mem", fs=False: dict(own=own, staging=staging, from_store=fs)
     return [
@@ -348,6 +491,22 @@ def corpus():
 
 
 def main(chk, replay=None):
+    if replay is not None and replay.get("staged"):
+        root = tempfile.mkdtemp(prefix="c17r_")
+        try:
+            fails = staged_parent_scenario(root, *replay["staged"])
+            print(json.dumps(dict(still_fails=bool(fails), observed=fails[:2]), default=str))
+            return 1 if fails else 0
+        finally:
+            shutil.rmtree(root, ignore_errors=True)
+    if replay is not None and replay.get("unwritten"):
+        root = tempfile.mkdtemp(prefix="c17r_")
+        try:
+            fails = unwritten_parent_scenario(root, *replay["unwritten"])
+            print(json.dumps(dict(still_fails=bool(fails), observed=fails[:2]), default=str))
+            return 1 if fails else 0
+        finally:
+            shutil.rmtree(root, ignore_errors=True)
     if replay is not None:
         root = tempfile.mkdtemp(prefix="c17r_")
         try:
@@ -368,6 +527,30 @@ def main(chk, replay=None):
     maxlen = 4 if quick else 5
     scs = corpus() + [gen_scenario(rng, maxlen) for _ in range(n)]
     reported = 0
+    for backend, keep in (("fs", False), ("fs", True), ("fscache", False), ("fscache", True)):
+        root = tempfile.mkdtemp(prefix="c17g_", dir=chk.tmpdir())
+        try:
+            sf_ = staged_parent_scenario(root, backend, keep)
+        finally:
+            shutil.rmtree(root, ignore_errors=True)
+        chk.case(["parent-also-staged-as-a-value", backend, keep], nontrivial=True, sample=dict(kind="merge parent staged as a value of an on-disk partition", backend=backend))
+        chk.count("staged-parent-chains")
+        if sf_:
+            chk.violation({"what": "partition merged on a parent that is also staged as a value of an on-disk partition (%s): %s at %s (%s)" % (
+                backend, sf_[0]["clause"], sf_[0]["level"], sf_[0]["which"]), "class": {"clause": sf_[0]["clause"], "backend": backend, "staged": True},
+                "staged": [backend, keep], "observed": sf_[:2], "source": STAGED_SRC})
+    for backend, staging in (("fs", "mem"), ("fscache", "mem"), ("fs", "disk"), ("fscache", "disk")):
+        root = tempfile.mkdtemp(prefix="c17u_", dir=chk.tmpdir())
+        try:
+            uf = unwritten_parent_scenario(root, backend, staging)
+        finally:
+            shutil.rmtree(root, ignore_errors=True)
+        chk.case(["parent-that-could-not-be-written", backend, staging], nontrivial=True, sample=dict(kind="merge parent only in memory", backend=backend))
+        chk.count("unwritten-parent-chains")
+        if uf:
+            chk.violation({"what": "partition merged on a parent that could not be written (%s, %s): %s at %s (%s)" % (
+                backend, staging, uf[0]["clause"], uf[0]["level"], uf[0]["which"]), "class": {"clause": uf[0]["clause"], "backend": backend, "unwritten": True},
+                "unwritten": [backend, staging], "observed": uf[:2], "source": UNWRITTEN_SRC})
     for sc in scs:
         root = tempfile.mkdtemp(prefix="c17_", dir=chk.tmpdir())
         try:
